@@ -190,4 +190,385 @@ theorem sorted_take_drop {α : Type} (e : Nat) : ∀ (L : List (α × Nat)), (L.
         congr 1
         exact (filter_all _ t (fun q hq => by have := hgt q hq; simp only [decide_eq_true_eq]; omega)).symm
 
+theorem zip_take {α β : Type} : ∀ (a : List α) (b : List β) (k : Nat),
+    (List.zip a b).take k = List.zip (a.take k) (b.take k) := by
+  intro a
+  induction a with
+  | nil => intro b k; simp
+  | cons x t ih =>
+    intro b k
+    cases b with
+    | nil => simp
+    | cons y u =>
+      cases k with
+      | zero => simp
+      | succ k => simp [ih]
+
+theorem zip_drop {α β : Type} : ∀ (a : List α) (b : List β) (k : Nat),
+    (List.zip a b).drop k = List.zip (a.drop k) (b.drop k) := by
+  intro a
+  induction a with
+  | nil => intro b k; simp
+  | cons x t ih =>
+    intro b k
+    cases b with
+    | nil => simp
+    | cons y u =>
+      cases k with
+      | zero => simp
+      | succ k => simp [ih]
+
+theorem mem_expandFrom {α : Type} (N : Nat) : ∀ (Q : List (α × Nat)) (a : Nat) (cur x : α),
+    x ∈ expandFrom N a cur Q → x = cur ∨ x ∈ Q.map (·.1) := by
+  intro Q
+  induction Q with
+  | nil => intro a cur x h; simp only [expandFrom, List.mem_replicate] at h; exact Or.inl h.2
+  | cons p t ih =>
+    intro a cur x h
+    obtain ⟨y, d⟩ := p
+    simp only [expandFrom, List.mem_append, List.mem_replicate] at h
+    rcases h with h | h
+    · exact Or.inl h.2
+    · rcases ih d y x h with rfl | h'
+      · right; simp
+      · right; simp only [List.map_cons, List.mem_cons]; exact Or.inr h'
+
+theorem add_perDump_core (c : Cat V) (h : c.WF) (e : Nat) (v : V) (he : e < c.numDumps)
+    (uniq' : List V) (vi : Nat) (hvi : uniq'[vi]? = some v) (hext : ∀ i, i < c.uniq.length → uniq'[i]? = c.uniq[i]?)
+    (hvilt : vi < uniq'.length) (hextlen : c.uniq.length ≤ uniq'.length) (hnd : uniq'.Nodup)
+    (x : Nat) (hx : getNat c.ev (c.ev.takeWhile (fun y => decide (y < e))).length = .ok x) :
+    ({ uniq := uniq',
+       idx := c.idx.take (c.ev.takeWhile (fun y => decide (y < e))).length ++ [vi] ++
+         c.idx.drop (if x = e then (c.ev.takeWhile (fun y => decide (y < e))).length + 1
+                     else (c.ev.takeWhile (fun y => decide (y < e))).length),
+       ev := c.ev.take (c.ev.takeWhile (fun y => decide (y < e))).length ++ [e] ++
+         c.ev.drop (if x = e then (c.ev.takeWhile (fun y => decide (y < e))).length + 1
+                    else (c.ev.takeWhile (fun y => decide (y < e))).length) } : Cat V).perDump =
+      c.perDump.take e ++
+      List.replicate ((c.ev.filter (fun x => decide (e < x))).headD 0 - e) (some v) ++
+      c.perDump.drop ((c.ev.filter (fun x => decide (e < x))).headD 0) := by
+  obtain ⟨x', hx', hwfN⟩ := add_core c h e he uniq' vi hvilt hextlen hnd
+  rw [hx] at hx'
+  simp only [Except.ok.injEq] at hx'
+  subst hx'
+  obtain ⟨hwf', hN'⟩ := hwfN
+  have hlen := h.2.1
+  have hne : c.ev ≠ [] := by intro h0; rw [h0] at hlen; simp at hlen
+  have hstrict := strictInc_pairwise _ h.1
+  -- S = starts, Q = (index, start) pairs
+  have hevS : c.ev = c.ev.dropLast ++ [c.numDumps] := by
+    simp only [Cat.numDumps]
+    rw [List.getLastD_eq_getLast?, List.getLast?_eq_some_getLast hne]
+    exact (List.dropLast_concat_getLast hne).symm
+  obtain ⟨S, hS⟩ : ∃ S, S = c.ev.dropLast := ⟨_, rfl⟩
+  rw [← hS] at hevS
+  have hSlen : S.length = c.idx.length := by rw [hS]; simp; omega
+  have hSstrict : S.Pairwise (· < ·) := by
+    rw [hevS] at hstrict; exact (List.pairwise_append.mp hstrict).1
+  have hSN : ∀ x ∈ S, x < c.numDumps := by
+    intro x hx; rw [hevS] at hstrict
+    exact (List.pairwise_append.mp hstrict).2.2 x hx _ (by simp)
+  obtain ⟨Q, hQ⟩ : ∃ Q, Q = List.zip (c.idx.map some) S := ⟨_, rfl⟩
+  have hQsnd : Q.map (·.2) = S := by rw [hQ, List.map_snd_zip (by simp; omega)]
+  have hQfst : Q.map (·.1) = c.idx.map some := by rw [hQ, List.map_fst_zip (by simp; omega)]
+  have hQs : (Q.map (·.2)).Pairwise (· < ·) := by rw [hQsnd]; exact hSstrict
+  have hQN : ∀ q ∈ Q, q.2 < c.numDumps := fun q hq => hSN q.2 (by rw [← hQsnd]; exact List.mem_map_of_mem hq)
+  have hXF : c.perDumpIdx = expandFrom c.numDumps 0 none Q := by
+    rw [perDumpIdx_pairs c hlen, hQ, hS]
+  -- positions
+  obtain ⟨k, hk⟩ : ∃ k, k = (S.takeWhile (fun x => decide (x < e))).length := ⟨_, rfl⟩
+  have hnN : (fun x => decide (x < e)) c.numDumps = false := by simp; omega
+  have hei : (c.ev.takeWhile (fun x => decide (x < e))).length = k := by
+    rw [hevS, takeWhile_snoc_not (fun x => decide (x < e)) c.numDumps hnN S, hk]
+  have hkS : k ≤ S.length := by
+    rw [hk]; exact (List.takeWhile_sublist _).length_le
+  rw [hei] at hx hwf' hN' ⊢
+  · -- the condition `x = e` in terms of S
+    have hxS : (x = e) ↔ (S[k]? = some e) := by
+      simp only [getNat] at hx
+      rw [hevS] at hx
+      by_cases hkl : k < S.length
+      · rw [List.getElem?_append_left hkl] at hx
+        rw [List.getElem?_eq_getElem hkl] at hx ⊢
+        simp only [Except.ok.injEq, Option.some.injEq] at hx ⊢
+        rw [hx]
+      · have hkeq : k = S.length := by omega
+        rw [List.getElem?_append_right (by omega), hkeq] at hx
+        simp only [Nat.sub_self, List.getElem?_cons_zero, Except.ok.injEq] at hx
+        rw [List.getElem?_eq_none (by omega)]
+        constructor
+        · intro hh; omega
+        · intro hh; simp at hh
+    obtain ⟨after, hafter⟩ : ∃ a, a = (if x = e then k + 1 else k) := ⟨_, rfl⟩
+    have hafterS : after = (if (Q.map (·.2))[k]? = some e then k + 1 else k) := by
+      rw [hafter, hQsnd]
+      by_cases hxe : x = e
+      · simp [hxe, hxS.mp hxe]
+      · have : ¬ S[k]? = some e := fun hh => hxe (hxS.mpr hh)
+        simp [hxe, this]
+    have hafterle : after ≤ S.length := by
+      rw [hafter]
+      split
+      · rename_i hxe
+        have := hxS.mp hxe
+        by_cases hkl : k < S.length
+        · omega
+        · rw [List.getElem?_eq_none (by omega)] at this; simp at this
+      · exact hkS
+    rw [← hafter] at hwf' hN' ⊢
+    -- pairs of the result
+    have hev' : (c.ev.take k ++ [e] ++ c.ev.drop after).dropLast = S.take k ++ [e] ++ S.drop after := by
+      rw [hevS, List.take_append_of_le_length hkS, List.drop_append_of_le_length hafterle]
+      rw [← List.append_assoc, List.dropLast_concat]
+    have hQ' : List.zip ((c.idx.take k ++ [vi] ++ c.idx.drop after).map some) (S.take k ++ [e] ++ S.drop after) =
+        Q.filter (fun q => decide (q.2 < e)) ++ (some vi, e) :: Q.filter (fun q => decide (e < q.2)) := by
+      obtain ⟨t1, t2⟩ := sorted_take_drop e Q hQs
+      rw [hQsnd, ← hk] at t1 t2
+      rw [← hQsnd] at t2
+      rw [← hafterS] at t2
+      rw [← t1, ← t2, hQ, zip_take, zip_drop]
+      simp only [List.map_append, List.map_take, List.map_drop, List.map_cons, List.map_nil, List.append_assoc]
+      rw [List.zip_append (by simp; omega)]
+      simp
+    have hpd' : ({ uniq := uniq', idx := c.idx.take k ++ [vi] ++ c.idx.drop after,
+                   ev := c.ev.take k ++ [e] ++ c.ev.drop after } : Cat V).perDumpIdx =
+        expandFrom c.numDumps 0 none
+          (Q.filter (fun q => decide (q.2 < e)) ++ (some vi, e) :: Q.filter (fun q => decide (e < q.2))) := by
+      rw [perDumpIdx_pairs _ hwf'.2.1, hN']
+      simp only
+      rw [hev', hQ']
+    rw [perDump_eq_idx, hpd', insert_expand c.numDumps Q hQs hQN none (some vi) e he]
+    rw [perDump_eq_idx c, hXF]
+    -- the next boundary
+    have hnxt : ((Q.filter (fun q => decide (e < q.2))).map (·.2)).headD c.numDumps =
+        (c.ev.filter (fun x => decide (e < x))).headD 0 := by
+      have h1 : (Q.filter (fun q => decide (e < q.2))).map (·.2) = S.filter (fun x => decide (e < x)) := by
+        rw [← hQsnd, List.filter_map]
+        rfl
+      have hNgt : decide (e < c.numDumps) = true := by simpa using he
+      rw [h1, hevS, List.filter_append]
+      simp only [List.filter_cons, hNgt, if_true, List.filter_nil]
+      cases S.filter (fun x => decide (e < x)) <;> simp
+    rw [hnxt]
+    -- values: old indices keep their value under the (possibly extended) unique values
+    have hval : ∀ o ∈ expandFrom c.numDumps 0 none Q,
+        (o.bind fun i => uniq'[i]?) = (o.bind fun i => c.uniq[i]?) := by
+      intro o ho
+      rcases mem_expandFrom _ Q 0 none o ho with rfl | hm
+      · rfl
+      · rw [hQfst] at hm
+        simp only [List.mem_map] at hm
+        obtain ⟨i, hi, rfl⟩ := hm
+        simp only [Option.bind_some]
+        exact hext i (h.2.2.1 i hi)
+    simp only [List.map_append, List.map_replicate, List.map_take, List.map_drop, Option.bind_some, hvi]
+    rw [List.map_congr_left hval]
+
+/-- **add(event, value) overrides the per-dump list on `[event, next boundary)`** and leaves every
+    other dump unchanged, for every well-formed series, every event inside the series and every
+    value (already known or new). -/
+theorem add_perDump (c : Cat V) (h : c.WF) (e : Nat) (v : V) (he : e < c.numDumps) (c' : Cat V)
+    (hadd : c.add e (some v) = .ok c') :
+    c'.perDump = c.perDump.take e ++
+      List.replicate ((c.ev.filter (fun x => decide (e < x))).headD 0 - e) (some v) ++
+      c.perDump.drop ((c.ev.filter (fun x => decide (e < x))).headD 0) := by
+  simp only [Cat.add] at hadd
+  cases hio : indexOf? c.uniq v with
+  | some i =>
+    obtain ⟨hi1, hiv⟩ := indexOf?_some c.uniq v i hio
+    simp only [hio, bind, Except.bind, pure, Except.pure] at hadd
+    cases hx : getNat c.ev (c.ev.takeWhile (fun y => decide (y < e))).length with
+    | error err => simp [hx] at hadd
+    | ok x =>
+      simp only [hx, Except.ok.injEq] at hadd
+      subst hadd
+      exact add_perDump_core c h e v he c.uniq i hiv (fun _ _ => rfl) hi1 (Nat.le_refl _) h.2.2.2 x hx
+  | none =>
+    have hnm := indexOf?_none c.uniq v hio
+    have hnd : (c.uniq ++ [v]).Nodup := by
+      rw [List.nodup_append]
+      refine ⟨h.2.2.2, by simp, ?_⟩
+      intro a ha b hb
+      simp only [List.mem_singleton] at hb
+      subst hb
+      intro hab; subst hab; exact hnm ha
+    simp only [hio, bind, Except.bind, pure, Except.pure] at hadd
+    cases hx : getNat c.ev (c.ev.takeWhile (fun y => decide (y < e))).length with
+    | error err => simp [hx] at hadd
+    | ok x =>
+      simp only [hx, Except.ok.injEq] at hadd
+      subst hadd
+      exact add_perDump_core c h e v he (c.uniq ++ [v]) c.uniq.length (by simp)
+        (fun i hi => List.getElem?_append_left hi) (by simp) (by simp) hnd x hx
+
+/-! ### add(event) without a value duplicates the current value: nothing changes -/
+
+theorem takeWhile_congr_mem {α : Type} (p q : α → Bool) : ∀ (l : List α), (∀ x ∈ l, p x = q x) →
+    l.takeWhile p = l.takeWhile q := by
+  intro l
+  induction l with
+  | nil => intro _; rfl
+  | cons a t ih =>
+    intro h
+    simp only [List.takeWhile_cons, h a (List.mem_cons_self ..)]
+    rw [ih (fun x hx => h x (List.mem_cons_of_mem _ hx))]
+
+theorem splice_same {α : Type} (l : List α) (x : α) (e n : Nat) (hen : e ≤ n) (hn : n ≤ l.length)
+    (h : ∀ d, e ≤ d → d < n → l[d]? = some x) :
+    l.take e ++ List.replicate (n - e) x ++ l.drop n = l := by
+  apply List.ext_getElem?
+  intro d
+  by_cases h1 : d < e
+  · rw [List.append_assoc, List.getElem?_append_left (by simp; omega), List.getElem?_take_of_lt h1]
+  · by_cases h2 : d < n
+    · rw [List.append_assoc, List.getElem?_append_right (by simp; omega)]
+      rw [List.getElem?_append_left (by simp; omega)]
+      rw [List.getElem?_replicate]
+      have : d - (l.take e).length < n - e := by simp; omega
+      simp only [this, if_true]
+      exact (h d (by omega) h2).symm
+    · rw [List.getElem?_append_right (by simp; omega)]
+      simp only [List.length_append, List.length_take, List.length_replicate, List.getElem?_drop]
+      congr 1
+      omega
+
+theorem add_none_perDump (c : Cat V) (h : c.WF) (e : Nat) (c' : Cat V) (hadd : c.add e none = .ok c') :
+    c'.perDump = c.perDump := by
+  simp only [Cat.add] at hadd
+  cases hl : c.lookup1 (e : Int) with
+  | error err => simp [hl, bind, Except.bind] at hadd
+  | ok i =>
+    have he : e < c.numDumps := lookup1_lt_numDumps c h e i hl
+    have hi1 : i < c.uniq.length := h.2.2.1 i (lookup1_mem c _ i hl)
+    simp only [hl, bind, Except.bind, pure, Except.pure] at hadd
+    cases hx : getNat c.ev (c.ev.takeWhile (fun y => decide (y < e))).length with
+    | error err => simp [hx] at hadd
+    | ok x =>
+      simp only [hx, Except.ok.injEq] at hadd
+      subst hadd
+      have hcore := add_perDump_core c h e (c.uniq[i]'hi1) he c.uniq i (List.getElem?_eq_getElem hi1)
+        (fun _ _ => rfl) hi1 (Nat.le_refl _) h.2.2.2 x hx
+      rw [hcore]
+      -- the dumps from `e` to the next boundary already carry that value
+      have hne : c.ev ≠ [] := by intro h0; have := h.2.1; rw [h0] at this; simp at this
+      have hstrict := strictInc_pairwise _ h.1
+      have hNmem : c.numDumps ∈ c.ev := by
+        simp only [Cat.numDumps]
+        rw [List.getLastD_eq_getLast?, List.getLast?_eq_some_getLast hne]
+        exact List.getLast_mem hne
+      obtain ⟨nxt, hnxt⟩ : ∃ n, n = (c.ev.filter (fun x => decide (e < x))).headD 0 := ⟨_, rfl⟩
+      have hfne : c.ev.filter (fun x => decide (e < x)) ≠ [] := by
+        intro h0
+        have := List.filter_eq_nil_iff.mp h0 c.numDumps hNmem
+        simp at this; omega
+      have hnxtmem : nxt ∈ c.ev.filter (fun x => decide (e < x)) := by
+        rw [hnxt]
+        cases hf : c.ev.filter (fun x => decide (e < x)) with
+        | nil => exact absurd hf hfne
+        | cons a t => simp
+      have hnxt1 : e < nxt := by simpa using (List.mem_filter.mp hnxtmem).2
+      have hnxtN : nxt ≤ c.numDumps := by
+        have hm := (List.mem_filter.mp hnxtmem).1
+        have := sorted_head_le_last
+        -- every boundary is at most the last one
+        have hle : ∀ y ∈ c.ev, y ≤ c.numDumps := by
+          intro y hy
+          have hdl : c.ev = c.ev.dropLast ++ [c.numDumps] := by
+            simp only [Cat.numDumps]
+            rw [List.getLastD_eq_getLast?, List.getLast?_eq_some_getLast hne]
+            exact (List.dropLast_concat_getLast hne).symm
+          rw [hdl] at hy hstrict
+          simp only [List.mem_append, List.mem_singleton] at hy
+          rcases hy with hy | rfl
+          · exact Nat.le_of_lt ((List.pairwise_append.mp hstrict).2.2 y hy _ (by simp))
+          · exact Nat.le_refl _
+        exact hle nxt hm
+      -- no boundary strictly between e and nxt
+      have hgap : ∀ y ∈ c.ev, e < y → nxt ≤ y := by
+        intro y hy hey
+        have hym : y ∈ c.ev.filter (fun x => decide (e < x)) := List.mem_filter.mpr ⟨hy, by simpa using hey⟩
+        have hfs : (c.ev.filter (fun x => decide (e < x))).Pairwise (· < ·) :=
+          List.Pairwise.sublist List.filter_sublist hstrict
+        cases hf : c.ev.filter (fun x => decide (e < x)) with
+        | nil => exact absurd hf hfne
+        | cons a t =>
+          rw [hf] at hym hfs hnxt
+          simp only [List.headD_cons] at hnxt
+          subst hnxt
+          rcases List.mem_cons.mp hym with rfl | hyt
+          · exact Nat.le_refl _
+          · exact Nat.le_of_lt ((List.pairwise_cons.mp hfs).1 y hyt)
+      rw [← hnxt]
+      apply splice_same _ _ e nxt (Nat.le_of_lt hnxt1) (by rw [perDump_length c h]; exact hnxtN)
+      intro d hed hdn
+      -- lookup at d = lookup at e
+      have hsame : c.lookup1 (d : Int) = c.lookup1 (e : Int) := by
+        simp only [Cat.lookup1]
+        have : c.ev.takeWhile (fun (x : Nat) => decide ((x : Int) ≤ (d : Int))) =
+            c.ev.takeWhile (fun (x : Nat) => decide ((x : Int) ≤ (e : Int))) := by
+          apply takeWhile_congr_mem
+          intro y hy
+          by_cases hye : y ≤ e
+          · have : y ≤ d := by omega
+            simp [hye, this]
+          · have h1 := hgap y hy (by omega)
+            have : ¬ y ≤ d := by omega
+            simp [hye, this]
+        rw [this]
+      have hpd := lookup1_perDumpIdx c h d
+      rw [hsame, hl] at hpd
+      rw [perDump_eq_idx, List.getElem?_map]
+      cases hq : c.perDumpIdx[d]? with
+      | none => rw [hq] at hpd; simp at hpd
+      | some o =>
+        rw [hq] at hpd
+        cases o with
+        | none => simp at hpd
+        | some j =>
+          simp only [Except.ok.injEq] at hpd
+          subst hpd
+          simp [List.getElem?_eq_getElem hi1]
+
+/-- **add_unmatched never changes any dump's value** (it only adds duplicate events) -/
+theorem addUnmatched_perDump (c : Cat V) (h : c.WF) (segs : List Nat) (dist : Nat) (c' : Cat V)
+    (hau : c.addUnmatched segs dist = .ok c') : c'.perDump = c.perDump := by
+  simp only [Cat.addUnmatched] at hau
+  split at hau
+  · simp at hau
+  · generalize segs.filter _ = un at hau
+    have key : ∀ (l : List Nat) (a r : Cat V), a.WF → a.perDump = c.perDump →
+        l.foldlM (fun (acc : Cat V) s =>
+          match acc.add s none with
+          | Except.ok c' => (pure c' : Except Err (Cat V))
+          | Except.error Err.index => pure acc
+          | Except.error e => Except.error e) a = Except.ok r → r.perDump = c.perDump := by
+      intro l
+      induction l with
+      | nil => intro a r _ hn hf; simp only [List.foldlM, pure, Except.pure, Except.ok.injEq] at hf; subst hf; exact hn
+      | cons s t ih =>
+        intro a r ha hn hf
+        simp only [List.foldlM, bind, Except.bind] at hf
+        cases hadd : a.add s none with
+        | ok a' =>
+          simp only [hadd, pure, Except.pure] at hf
+          have hs : s < a.numDumps := by
+            simp only [Cat.add] at hadd
+            cases hl : a.lookup1 (s : Int) with
+            | error e => simp [hl, bind, Except.bind] at hadd
+            | ok i => exact lookup1_lt_numDumps a ha s i hl
+          have hw := (add_wf a ha s none hs a' hadd).1
+          have hp := add_none_perDump a ha s a' hadd
+          exact ih a' r hw (by rw [hp, hn]) hf
+        | error e =>
+          cases e with
+          | index =>
+            simp only [hadd, pure, Except.pure] at hf
+            exact ih a r ha hn hf
+          | value => simp [hadd] at hf
+          | type => simp [hadd] at hf
+          | key => simp [hadd] at hf
+          | notImpl => simp [hadd] at hf
+          | other => simp [hadd] at hf
+    exact key un c c' h rfl hau
+
 end Categorical
